@@ -143,6 +143,13 @@ def w_queries(idx):
         if canon(w.pi(FIELDS), FIELDS) != canon(before, FIELDS):
             out.append(("query-mutates", "", {"kind": "query", "state": s["st"]}))
         n += 1
+        # the same forest built from nodes that were all constructed with ONE explicit id (ids are the caller's business;
+        # what the queries return is a matter of child lists and names only)
+        if i % 2 == 0 and len(s["st"]["kids"]) >= 2:
+            w = World.build({k: v for k, v in s["st"].items() if k != "store"}, ids=lambda j: "one-id")
+            for name, detail in cmp_queries(w, s["q"]):
+                out.append((f"query:{name}:nodes-share-an-id", detail, {"kind": "query", "state": s["st"], "query": name, "ids": "all nodes constructed with one explicit id"}))
+            n += 1
     return n, out
 
 
